@@ -142,6 +142,8 @@ def observe(trimesh, item, k):
     flat, nv, tag, claim, opt = item
     if opt.get("free"):
         return observe_free(trimesh, item, k)
+    if opt.get("coords") is not None:
+        return observe_gauss(trimesh, item, k)
     faces = [list(flat[j:j + 3]) for j in range(0, len(flat), 3)]
     g, geo = trimesh.graph, trimesh.geometry
     cname = opt.get("conv", "int64")
@@ -361,6 +363,40 @@ def observe_free(trimesh, item, k):
     return rec
 
 
+def observe_gauss(trimesh, item, k):
+    """angle defects of a closed lattice surface with many nearly flat vertices"""
+    flat, nv, tag, claim, opt = item
+    faces = [list(flat[j:j + 3]) for j in range(0, len(flat), 3)]
+    rec = {"kind": "gauss", "tag": tag, "claim": claim, "exc": "", "faces": faces, "nv": nv,
+           "src": {"flat": [int(x) for x in flat], "nv": int(nv), "opt": opt, "k": int(k)}}
+    cur = ["?"]
+    try:
+        cur[0] = "Trimesh"
+        m = trimesh.Trimesh(vertices=np.array(opt["coords"], dtype=np.float64),
+                            faces=np.array(faces, dtype=np.int64), process=False)
+        if np.asarray(m.faces).tolist() != faces or len(m.vertices) != nv:
+            raise MachineryError("the mesh under test does not hold the intended arrays")
+        if k % 2:     # the defects on a cold object, or after the topology was read
+            cur[0] = "euler_number"
+            rec["eul"], rec["wt"] = int(m.euler_number), bool(m.is_watertight)
+        cur[0] = "vertex_defects"
+        d = np.asarray(m.vertex_defects, dtype=np.float64)
+        tot = float(np.sum(d))
+        if not np.isfinite(tot):
+            raise ValueError("nonfinite")
+        rec["vdn"] = [int(x) for x in d.shape]
+        rec["defect8"] = int(round(tot / (2.0 * np.pi) * 1e8))
+        # how the input looks to the library (for the coverage guard only, never judged)
+        rec["small"] = int(np.count_nonzero((np.abs(d) > 1e-9) & (np.abs(d) < 1e-5)))
+        cur[0] = "euler_number"
+        rec["eul"], rec["wt"] = int(m.euler_number), bool(m.is_watertight)
+    except MachineryError:
+        raise
+    except BaseException as e:  # noqa
+        rec["exc"] = f"{cur[0]}:{type(e).__name__}"[:44]
+    return rec
+
+
 def gen_records(chunk):
     trimesh = import_trimesh()
     logging.getLogger("trimesh").setLevel(logging.CRITICAL)
@@ -546,6 +582,66 @@ def bait(rs, s):
     return tuple(int(x) for f in faces for x in f), V, ids
 
 
+def gentle_surfaces(rs, count):
+    """closed lattice surfaces (spheres) with nearly flat vertices: integer coordinates, spacing of
+    hundreds to thousands and height steps of a few units, so that single angle defects lie between
+    1e-8 and 1e-5 while every triangle stays well shaped.
+      lens:  a convex lattice polygon around the origin, one apex a few units above it and one below
+             (either a few units or about a radius away);
+      slab:  a (k+1) x (k+1) height field with small integer heights over a coarse lattice, closed by
+             a fan from a point far below to its boundary."""
+    for j in range(count):
+        if j % 2 == 0:
+            R = int(rs.randint(400, 3000))
+            ring = [[[R, 0], [0, R], [-R, 0], [0, -R]],
+                    [[2 * R, 0], [R, 2 * R], [-R, 2 * R], [-2 * R, 0], [-R, -2 * R], [R, -2 * R]],
+                    [[R, 0], [R, R], [0, R], [-R, R], [-R, 0], [-R, -R], [0, -R], [R, -R]],
+                    [[3 * R, R], [-R, 2 * R], [-2 * R, -R], [R, -3 * R]]][int(rs.randint(4))]
+            h = int(rs.randint(1, 4))
+            H = int(rs.randint(1, 4)) if rs.rand() < 0.5 else R + int(rs.randint(R))
+            n = len(ring)
+            coords = [[x, y, int(rs.randint(2)) if rs.rand() < 0.3 else 0] for x, y in ring] + [[0, 0, h + 1], [0, 0, -H - 1]]
+            faces = [[q, (q + 1) % n, n] for q in range(n)] + [[(q + 1) % n, q, n + 1] for q in range(n)]
+            name = "lens"
+        else:
+            kk = int(rs.randint(3, 7))
+            L = int(rs.randint(300, 2500))
+            bump = int(rs.randint(3))
+            vid = lambda a, b: a * (kk + 1) + b
+            coords = []
+            for a in range(kk + 1):
+                for b in range(kk + 1):
+                    z = [int(rs.randint(0, 3)), ((a - kk // 2) ** 2 + (b - kk // 2) ** 2) // 2,
+                         (a * b) % 3 + int(rs.randint(2))][bump]
+                    coords.append([a * L, b * L, int(z)])
+            faces = []
+            for a in range(kk):
+                for b in range(kk):
+                    q = [vid(a, b), vid(a + 1, b), vid(a + 1, b + 1), vid(a, b + 1)]
+                    if (a + b + j) % 2:
+                        faces += [[q[0], q[1], q[2]], [q[0], q[2], q[3]]]
+                    else:
+                        faces += [[q[0], q[1], q[3]], [q[1], q[2], q[3]]]
+            border = [vid(a, 0) for a in range(kk)] + [vid(kk, b) for b in range(kk)] + \
+                     [vid(a, kk) for a in range(kk, 0, -1)] + [vid(0, b) for b in range(kk, 0, -1)]
+            apex = len(coords)
+            coords.append([kk * L // 2, kk * L // 2, -kk * L])
+            faces += [[border[(q + 1) % len(border)], border[q], apex] for q in range(len(border))]
+            name = "slab"
+        if rs.rand() < 0.5:      # relabel and reorder: the sum may not depend on the presentation
+            perm = rs.permutation(len(coords))
+            newc = [None] * len(coords)
+            for old, new in enumerate(perm):
+                newc[int(new)] = coords[old]
+            coords = newc
+            faces = [[int(perm[x]) for x in f] for f in faces]
+            faces = [faces[q] for q in rs.permutation(len(faces))]
+        if rs.rand() < 0.3:
+            faces = [f[::-1] for f in faces]
+        yield (tuple(int(x) for f in faces for x in f), len(coords), "gauss:" + name, 1,
+               {"coords": [[int(x) for x in c] for c in coords]})
+
+
 def extra_items(tier, rs):
     """the families added by the coverage audit (module docstring)"""
     big = tier == "thorough"
@@ -598,10 +694,12 @@ def extra_items(tier, rs):
         else:
             opt = {"hist": ["process"]}
         out.append((flat, nv, "hist:" + how, 0, opt))
+    # Gauss-Bonnet where many vertices carry a small share of the curvature
+    out += list(gentle_surfaces(rs, 600 if big else 70))
     return out
 
 
-FAMILY_MIN = {"dt": 140, "empty": 5, "lift": 100, "free": 250, "hist": 150}
+FAMILY_MIN = {"dt": 140, "empty": 5, "lift": 100, "free": 250, "hist": 150, "gauss": 60}
 
 
 def work_items(tier):
@@ -612,7 +710,7 @@ def work_items(tier):
         items += list(variants(rs, 150))
     else:
         items = list(exhaustive(2))
-        items += list(sampled(4500, (3, 4), (4, 5, 6), rs))
+        items += list(sampled(4300, (3, 4), (4, 5, 6), rs))
         items += list(variants(rs, 16))
     items = [it + ({},) for it in items]
     items += extra_items(tier, np.random.RandomState(seed() + 50505))
@@ -627,13 +725,18 @@ def input_stats(cases):
           "min_len_left_a_component_out": 0, "nodes_none": 0, "nodes_subset": 0,
           "only_watertight_returned_a_part": 0, "only_watertight_repaired_a_part": 0,
           "only_watertight_left_a_component_out": 0, "vertex_index_65536_or_more": 0,
-          "vertex_index_2_31_or_more": 0, "free_with_components": 0}
+          "vertex_index_2_31_or_more": 0, "free_with_components": 0,
+          "gauss_records_with_5_or_more_small_defects": 0, "gauss_small_defect_vertices": 0}
     for c in cases:
         top = max(c["src"]["opt"].get("lift") or [0])
         st["vertex_index_65536_or_more"] += bool(top >= 65536 and c["kind"] == "mesh")
         st["vertex_index_2_31_or_more"] += top >= 2 ** 31
         if c["kind"] == "free":
             st["free_with_components"] += bool(c["hascc"] and c["exc"] == "")
+            continue
+        if c["kind"] == "gauss":
+            st["gauss_records_with_5_or_more_small_defects"] += bool(c["exc"] == "" and c["small"] >= 5)
+            st["gauss_small_defect_vertices"] += c["small"] if c["exc"] == "" else 0
             continue
         fs = c["faces"]
         cnt = {}
@@ -745,7 +848,8 @@ def main(argv):
                 or stats["min_len_left_a_component_out"] < 200 or stats["nodes_none"] < 500 \
                 or stats["nodes_subset"] < 500 or stats["only_watertight_returned_a_part"] < 50 \
                 or stats["only_watertight_repaired_a_part"] < 5 or stats["only_watertight_left_a_component_out"] < 500 \
-                or stats["free_with_components"] < 40:
+                or stats["free_with_components"] < 40 \
+                or stats["gauss_records_with_5_or_more_small_defects"] < 15 or stats["gauss_small_defect_vertices"] < 300:
             raise MachineryError(f"enumeration nearly empty: {stats}")
     cov = {
         "states": states, "transitions": states,
@@ -771,7 +875,9 @@ def main(argv):
         "connected_components with min_len 1-4 and nodes = all / None / a random subset, engines scipy, networkx and None",
         "other integer dtypes / containers, empty face arrays, vertex indices up to 2^17 in meshes and up to 2^62 in the "
         "free functions (recorded through the order-preserving relabelling), queries read before the faces were replaced",
-        "angle defects in fixed point: round(sum/2pi*1e6) within 5 units, vertices on the moment curve (no collinear triple)",
+        "angle defects in fixed point: round(sum/2pi*1e6) within 5 units, vertices on the moment curve (no collinear triple); "
+        "on the closed lattice surfaces with many nearly flat vertices (family gauss: lenses and height-field slabs, "
+        "8-51 vertices, single defects 1e-8..1e-5) round(sum/2pi*1e8) within 2 + nv/50 units",
     ])
 
 
